@@ -11,7 +11,7 @@ from .sym import (BOTTOM, Place, Unsupported, is_ref, place_of_ref, _norm_adt, _
 
 ITER_OPS = frozenset(["eiter", "iter", "map", "filter", "filter_map", "zip", "take", "skip",
                       "enumerate", "rev", "iter_mut", "chain", "lines", "split", "splitn",
-                      "chars", "cli_values", "range"])
+                      "chars", "cli_values", "range", "take_while", "skip_while", "map_while", "step_by"])
 
 EXIT_CODES = {"OK": 0, "USAGE": 64, "DATAERR": 65, "NOINPUT": 66, "NOUSER": 67, "NOHOST": 68,
               "UNAVAILABLE": 69, "SOFTWARE": 70, "OSERR": 71, "OSFILE": 72, "CANTCREAT": 73,
@@ -627,10 +627,7 @@ class Models(object):
                 npc = len(ev.pc)
                 ev.discover += 1
                 try:
-                    for g, x in reversed(items):
-                        if not ev.store.live:
-                            break
-                        ev.branch(g, lambda x=x: (body(x), tm.UNIT)[1], lambda: tm.UNIT)
+                    self._run_unrolled(ev, list(reversed(items)), body)
                 finally:
                     ev.discover -= 1
                     del ev.pc[npc:]
@@ -638,10 +635,7 @@ class Models(object):
                         del f.returns[n:]
                 rev = ev.store
                 ev.store = saved
-            for g, x in items:
-                if not ev.store.live:
-                    break
-                ev.branch(g, lambda x=x: (body(x), tm.UNIT)[1], lambda: tm.UNIT)
+            self._run_unrolled(ev, items, body)
             if check:
                 ev.__dict__.setdefault("order_loops", []).append(
                     {"loc": loc, "stack": tuple(ev.call_stack), "n": len(items), "names": dict(ev.cell_names),
@@ -649,6 +643,34 @@ class Models(object):
                                if ev.store.cells.get(c) is not rev.cells.get(c)]})
             return tm.UNIT
         return self.run_symbolic_loop(ev, itv, body, loc)
+
+    def _run_unrolled(self, ev, items, body):
+        """One iteration per (gate, element).  Paths that leave by `break` are merged back into the state after
+        the loop, each under the condition it was taken with (they used to be dropped, which made everything
+        written before a conditional `break` disappear and every later iteration look unconditional)."""
+        from .sym import LoopCtx
+        n0 = len(ev.pc)
+        breaks = []
+
+        def run_item(x):
+            ctx = body(x)
+            if isinstance(ctx, LoopCtx) and ctx.breaks:
+                breaks.extend(ctx.breaks)
+            return tm.UNIT
+        for g, x in items:
+            if not ev.store.live:
+                break
+            ev.branch(g, lambda x=x: run_item(x), lambda: tm.UNIT)
+        if breaks:
+            store = ev.store if ev.store.live else None
+            for bpc, bs in reversed(breaks):
+                gate = tm.and_(*bpc[n0:]) if len(bpc) > n0 else tm.TRUE
+                bs.live = True
+                store = bs if store is None else ev.merge(gate, bs, store)
+            # what was learnt from "this iteration did not break" does not hold after the loop
+            del ev.pc[n0:]
+            ev.store = store
+            ev.store.live = True
 
     def run_symbolic_loop(self, ev, itv, body, loc):
         from . import folds
@@ -736,10 +758,42 @@ class Models(object):
         for c in cells:
             nxt = post.cells[c] if live else state_for[c]
             finals[c] = cl.rebuild(state_for[c], nxt)
+        # paths that leave the loop by `break`: what they wrote reaches the code after the loop
+        brks = list(ctx.breaks) if isinstance(ctx, LoopCtx) else []
+        if brks:
+            bchanged = set()
+            for _bpc, bs in brks:
+                for c, v in bs.cells.items():
+                    if c in pre.cells and c != ecell and v is not state_for.get(c, pre.cells[c]):
+                        bchanged.add(c)
+            npc0 = len(ev.pc)
+            done = False
+            if len(brks) == 1 and not cells:
+                # nothing is carried from one iteration to the next and the only exit is taken at the first element
+                # x with c(x): the cells written before the exit hold f(first x with c), if there is one (`find`)
+                bpc, bs = brks[0]
+                conds = [g for g in bpc[npc0:] if g.op != "in_loop"]
+                if conds and all(g.op != "in_loop" or g.a[0] == uid for g in bpc[npc0:]):
+                    lamc = tm.lam([elem], tm.and_(*conds))
+                    if src.op == "iter" and src.a[0].op in ("push", "ite"):
+                        opt = self.find_in(src.a[0], lamc)
+                        first, found = opt_val(opt), opt_is_some(opt)
+                    else:
+                        first, found = mk("find_val", src, lamc), tm.any_(src, lamc)
+                    for c in sorted(bchanged):
+                        state_for[c] = pre.cells[c]
+                        finals[c] = tm.ite(found, tm.subst(bs.cells[c], {elem: first}), pre.cells[c])
+                    done = True
+            if not done:
+                # anything else (state carried up to the exit, several exits): no closed form is attempted
+                for c in sorted(set(cells) | bchanged):
+                    state_for.setdefault(c, pre.cells[c])
+                    finals[c] = cl.opaque(state_for[c], mk("break_paths", uid))
+            cells = sorted(set(cells) | bchanged)
         info = {"uid": uid, "iter": src, "elem": elem, "cells": cells, "loc": loc,
                 "state": [state_for[c] for c in cells],
                 "init": [pre.cells[c] for c in cells],
-                "next": [post.cells[c] if live else state_for[c] for c in cells],
+                "next": [post.cells.get(c, state_for[c]) if live else state_for[c] for c in cells],
                 "final": [finals[c] for c in cells],
                 "names": [ev.cell_names.get(c) for c in cells],
                 "breaks": len(ctx.breaks) if isinstance(ctx, LoopCtx) else 0,
@@ -763,9 +817,14 @@ class Models(object):
                     if conds and not any(tm.free_syms(g) & state_syms for g in conds) and not (tm.free_syms(rv) & state_syms) \
                             and all(g.op != "in_loop" or g.a[0] == uid for g in inner):
                         lamc = tm.lam([elem], tm.and_(*conds))
-                        first = mk("find_val", src, lamc)
+                        if src.op == "iter" and src.a[0].op in ("push", "ite"):
+                            # same closed form as the model of Iterator::find (pushes and joins made explicit)
+                            opt = self.find_in(src.a[0], lamc)
+                            first, found = opt_val(opt), opt_is_some(opt)
+                        else:
+                            first, found = mk("find_val", src, lamc), tm.any_(src, lamc)
                         rv2 = tm.subst(rv, {elem: first})
-                        f.returns[i] = (tuple(outer) + (tm.any_(src, lamc),), rv2, rs2)
+                        f.returns[i] = (tuple(outer) + (found,), rv2, rs2)
                         continue
                 f.returns[i] = (gate, mk("loop_pick", uid, rv), rs2)
         ev.store = pre.copy()
@@ -844,6 +903,11 @@ class Models(object):
         for i, a in enumerate(args):
             if is_ref(a):
                 ev.write(place_of_ref(a), mk("havoc", out, i))
+            elif isinstance(a, T):
+                # a mutable borrow wrapped in an iterator adaptor: what it reaches may be written by the callee
+                for sub in tm.subterms(a):
+                    if sub.op in ("iter_mut", "values_mut") and sub.a and is_ref(sub.a[0]):
+                        ev.write(place_of_ref(sub.a[0]), mk("havoc", out, i))
         return out
 
     def reg(self, *names):
